@@ -107,7 +107,8 @@ def main():
                                  'loops_classified': sum(len(b.loops()) for b in f.bodies.values() if not b.generic_dup()),
                                  'rule_instances': len(rs),
                                  'helpers_inlined_into_callers': f.inline_report.get('inlined', []),
-                                 'helper_bodies_dropped_after_inlining': f.inline_report.get('dropped', [])}
+                                 'helper_bodies_dropped_after_inlining': f.inline_report.get('dropped', []),
+                                 'normalisations': {k: f.inline_report.get(k) for k in ('adaptors_desugared', 'renamed', 'fields_renamed', 'types_renamed', 'consts_aliased', 'notes')}}
             for r in rs:
                 all_results.append((cname, r))
         # controls: positive fixtures
